@@ -24,14 +24,21 @@ RULE = ("same engine and history format as C01 (`item ctor n values ; op ; op ..
         "folded with the harness's own re-implementation of each item's observable algebra (never with the merge/modify/default "
         "under test). A predicate that is not monotone on the current contents is outside the domain of the *answer* clause: the "
         "answer is printed as `nm` by all sides (`search_predicate_not_monotone_here`), its probes are still compared. The exhaustive small-scope "
-        "stream of C01 additionally contains the searches. non-trivial = history with a search after at least one range modification")
+        "stream of C01 additionally contains the searches. WAVE 4: the lazy item `ap` (add an arithmetic progression: push gives the right "
+        "child a different tag than the left one) and `apap` = Combinator<Ap,Ap> with thresholds on the sums / lengths (`ge`, `ge0`, `ge1`, `len`), "
+        "run under the guard described in C01; empty-slot elements (`_`, `v#0`) inside the searched ranges; two histories per run on "
+        "n = 2^20+1 / 2^21 with lb starting within 24 of the end and lbr ending within 24 of the start after a range modification. "
+        "non-trivial = history with a search after at least one range modification")
 ASSUMPTIONS = [
     "the Lean model of rlib_segtree is hand-written (recursion tree instead of the implicit array); it is tied to the code by running both on the same histories",
     "predicates depend only on the observable value of the aggregate and are monotone along the ranges they are asked about (checked per search by both sides)",
     "floats: NaN outside every law; non-NaN bit patterns are ordered by FloatFmt.ordKey in the model (standard fact about IEEE sign-magnitude, cross-checked against the standard library's comparison on every run); Default of Min/MinAdd<f64> is f64::MAX, of Max/MaxAdd<f64> f64::MIN = -MAX (keyed_default_identity: identities on every finite element, and on -inf / +inf respectively) - that the crate's float trait constants are these is compared on every run (`const f64`, `const f32`)",
     "overflow is outside the domain (i64: magnitudes far below 2^63; narrow / unsigned element types: decided per history by the model's overflow guard, `S any`); the defaults of Min/MinAdd (<T as MinMax>::MAX) and Max/MaxAdd (MIN) are identities on every value of the element type (minmax_default_identity, for every IntTy) - that the crate's trait constants are the type's bounds is compared on every run (`const <type>`, all twelve integer types)",
 ]
-TRUSTED_EXTRA = ["harness items affHash/strCat are defined twice (Rust, Lean) and compared by the differential run"]
+ASSUMPTIONS += [
+    "item ap (wave 4): model push (lawful for arbitrary operands) and the Rust item's push (written with left.len) coincide on positional trees (C01.ap_push_is_code_push); the driver checks the equation on every push of the model run and answers `S any` otherwise; Default of ap is a two-sided identity (ap_default_identity)",
+]
+TRUSTED_EXTRA = ["harness items affHash/strCat/flip/ap are defined twice (Rust, Lean) and compared by the differential run"]
 MANIFEST = {
     "level": "proof",
     "text": ("Lean 4 theorems over an abstract lawful item: the modelled lower_bound / lower_bound_rev return exactly the first / last "
@@ -41,6 +48,7 @@ MANIFEST = {
              "interleaved with any history (C01). Defaults of all built-in items are proved to be identities on their domain - for Min/Max/MinAdd/MaxAdd at every integer element type, on all values "
              "between the type's real bounds (and not beyond: min_default_needs_type_max); for element types ordered by a key (records, floats by bit pattern) "
              "on every element between the default and the other end (keyed_default_identity; a Default above an element - MinMax::MIN = MIN_POSITIVE - is not: max_default_needs_type_min). The "
+             "searches are exercised on a lazy item that is asymmetric in its children (ap, proved lawful in C01, Default an identity: ap_default_identity). The "
              "hand-written model is tied to rlib_segtree by a differential correspondence run on every check."),
     "note": ("Trusted: Lean kernel, axioms propext/Classical.choice/Quot.sound, the hand-written model, harness and driver plumbing. "
              "lower_bound with l >= n has no assert in the code and walks off the array: outside the property's domain, not modelled."),
